@@ -144,12 +144,20 @@ IProdR(q) == LET RECURSIVE go(_, _)
              IN go(1, "1")
 MVHyp(sh, ix) == LET P == Len(sh) IN
     RDiv(IProdR([j \in 1..P |-> RBinom(sh[j] - 1, ix[j])]), RBinom(NTot(sh), Tot(ix)))
+\* pooled spectrum: total count of the entries with t derived alleles in all populations together
+\* (enumerating the first P-1 coordinates; the last one is determined by t)
+PoolAt(s, t) ==
+    LET P == Len(s.sh)
+        front == SubSeq(s.sh, 1, P - 1)
+    IN  IF P = 1 THEN s.d[t + 1]
+        ELSE RSum([q \in 1..Size(front) |->
+                 LET jx == Unflat(front, q) last == t - Tot(jx) IN
+                 IF last >= 0 /\ last <= s.sh[P] - 1 THEN At(s, jx \o <<last>>) ELSE "0"])
 ScrambleU(s) ==
-    LET pooled(t) == RSum([k \in 1..Size(s.sh) |-> IF Tot(Unflat(s.sh, k)) = t THEN s.d[k] ELSE "0"])
-        pool == [t \in 0..NTot(s.sh) |-> pooled(t)]
+    LET pool == [t \in 0..NTot(s.sh) |-> PoolAt(s, t)]
         \* a masked entry contaminates the pooled class of its total count
-        bad(t) == \E k \in 1..Size(s.sh) : s.m[k] /\ Tot(Unflat(s.sh, k)) = t
-    IN  Mk(s.sh, LAMBDA ix : RMul(MVHyp(s.sh, ix), pool[Tot(ix)]), LAMBDA ix : bad(Tot(ix)), FALSE, s.ids)
+        badT == {Tot(Unflat(s.sh, k)) : k \in {q \in 1..Size(s.sh) : s.m[q]}}
+    IN  Mk(s.sh, LAMBDA ix : RMul(MVHyp(s.sh, ix), pool[Tot(ix)]), LAMBDA ix : Tot(ix) \in badT, FALSE, s.ids)
 
 (***************************************************************************)
 (* Laws (checked exhaustively by TLC on the lattice of SpectrumOpsMC, and  *)
